@@ -207,7 +207,7 @@ def lonlat_of(area, cols, rows):
     return np.asarray(lon, dtype=float), np.asarray(lat, dtype=float)
 
 
-def gen_scene(r, big=False, dropped=False):
+def gen_scene(r, big=False, dropped=False, many_chunks=False, force_mwm=None):
     maxg = 28 if big else 12
     crs = r.choice([c for c in CRS if c[0] not in ("geos",)])
     area = gen_area(r, maxg, maxg, crs)
@@ -215,6 +215,8 @@ def gen_scene(r, big=False, dropped=False):
     R = r.choice([24, 30]) if big else r.choice([4, 6, 8, 12])
     C = r.choice([20, 24]) if big else r.randint(4, 9)
     rps = gen_rps(r, R)
+    if many_chunks:      # >= 5 input chunks: da.reduction combines partial results (tree)
+        R, rps = r.choice([(10, 2), (12, 2), (15, 3)])
     if dropped:
         rps, R = 2, 8
         cols, rows = gen_colrow(r, R, C, h, w, spacing=3.0, first_row=-5.5)
@@ -222,11 +224,11 @@ def gen_scene(r, big=False, dropped=False):
         cols, rows = gen_colrow(r, R, C, h, w)
     lons, lats = lonlat_of(area, cols, rows)
     dtype = r.choice(["f4", "f8"])
-    mwm = r.random() < 0.3
+    mwm = (r.random() < 0.35) if force_mwm is None else force_mwm
     fill = r.choice([NAN, NAN, NAN, -999.0])
     data, kind, const, has_fill = gen_data(r, R, C, dtype, mwm, fill)
     nscan = R // rps
-    in_rows = rps * (1 if dropped else r.randint(1, nscan))
+    in_rows = rps * (1 if (dropped or many_chunks) else r.randint(1, max(1, nscan // 2)))
     sc = dict(area)
     sc.update({"lons": hex2(lons), "lats": hex2(lats), "data": hex2(data), "dtype": dtype, "rps": rps,
                "params": dict(DEFAULT_PARAMS) if dropped else gen_params(r), "mwm": False if dropped else mwm,
@@ -697,7 +699,8 @@ def run(ctx):
     n_sc = ctx.n(14, 200)
     ll_cases = [flipped_case()] + [gen_ll2cr_case(r, big=(i % 12 == 0)) for i in range(n_ll)]
     fn_cases = [gen_fornav_case(r, big=(i % 18 == 17)) for i in range(n_fn)]
-    sc_cases = [known_scene()] + [gen_scene(r, big=(i % 14 == 13), dropped=(i % 7 == 3)) for i in range(n_sc)]
+    sc_cases = [known_scene()] + [gen_scene(r, big=(i % 14 == 13), dropped=(i % 7 == 3), many_chunks=(i % 5 == 1),
+                                            force_mwm=(True if i % 4 == 2 else None)) for i in range(n_sc)]
     wg_cases = [gen_wgrid(r) for _ in range(ctx.n(30, 400))]
     # every scene also is an ll2cr case
     for sc in sc_cases:
